@@ -155,10 +155,10 @@ func (s *backendStorageCommon) GetBackends() []*Backend {
 	return result
 }
 
+// getBackendLocked looks up the backend for the given URL. The caller must hold
+// (at least) the read lock: sync.RWMutex is not reentrant, taking the read lock
+// again here deadlocks with a writer that arrives in between.
 func (s *backendStorageCommon) getBackendLocked(u *url.URL) *Backend {
-	s.mu.RLock()
-	defer s.mu.RUnlock()
-
 	entries, found := s.backends[u.Host]
 	if !found {
 		return nil
